@@ -179,14 +179,18 @@ class _MemoryFile(io.RawIOBase):
 
     def truncate(self, size=None):
         # type: (Optional[int]) -> int
+        if not self._mode.writing:
+            raise IOError("File not open for writing")
         with self._seek_lock():
             self.on_modify()
+            pos = self._bytes_io.tell()
             new_size = self._bytes_io.truncate(size)
-            if size is not None and self._bytes_io.tell() < size:
-                file_size = self._bytes_io.seek(0, os.SEEK_END)
-                self._bytes_io.write(b"\0" * (size - file_size))
-                self._bytes_io.seek(-size + file_size, os.SEEK_END)
-            return size or new_size
+            # extend with zeros when growing, and keep the position (like io.FileIO)
+            file_size = self._bytes_io.seek(0, os.SEEK_END)
+            if file_size < new_size:
+                self._bytes_io.write(b"\0" * (new_size - file_size))
+            self._bytes_io.seek(pos)
+            return new_size
 
     def writable(self):
         # type: () -> bool
